@@ -2,6 +2,7 @@
 TLC: MC_Field (toy fields, all pairs of encodings) + MC_LimbField (toy limb kernels, all representations).
 Conformance: every field op of every backend from raw limbs, judged by Field.tla at full size."""
 import os
+import json
 from vlib import *
 
 # inclusive per-limb maxima (even limb, odd limb) per backend and operand class
@@ -256,6 +257,47 @@ def gen_vec(kind, rng, quick):
         op1("reduce", "M", "Mr")
         op2("mul", "Mr" if kind == "ifma" else "M", b, "M4")
         op1("diff_sum", "Mr" if kind == "ifma" else "M", "DS2")
+    if kind == "ifma":
+        ops += gen_ifma_extreme(rng)
+    return ops
+
+
+def ifma_unreduce(red):
+    """limbs of an F51x4Unreduced whose reduction has exactly the limbs `red` (each at most 2^51 - 1 + its carry-in)"""
+    H = 1 << 51
+    c = [0] * 5                                   # c[k]: carry out of limb k
+    low = [0] * 5
+    for k in range(1, 5):
+        c[k - 1] = max(0, red[k] - (H - 1))
+        low[k] = red[k] - c[k - 1]
+    c[4] = (max(0, red[0] - (H - 1)) + 18) // 19
+    low[0] = red[0] - 19 * c[4]
+    assert all(0 <= l < H for l in low)
+    return [low[k] + c[k] * H for k in range(5)]
+
+
+def gen_ifma_extreme(rng):
+    """products of admissible reduced operands whose limb 4 is as large as a directed search could make it (tools/ifma_extreme.json),
+    followed by exactly what the point formulas do with a product: negate_lazy / diff_sum without a reduction in between"""
+    pairs = json.load(open(os.path.join(os.path.dirname(os.path.abspath(__file__)), "..", "ifma_extreme.json")))["pairs"]
+    ops = [{"op": "reset"}]
+    for r in range(3):
+        sel = [pairs[(4 * r + j) % len(pairs)] for j in range(4)]
+        for side, reg in (("x", "A"), ("y", "B")):
+            for j in range(4):
+                ops.append({"op": "fe.from_limbs", "in": [limb_bytes(ifma_unreduce(sel[j][side]))], "out": "L%d" % j})
+            ops.append({"op": "vec.new", "kind": "ifma", "in": ["L0", "L1", "L2", "L3"], "out": reg})
+            ops.append({"op": "vec.op1", "f": "reduce", "in": [reg], "out": reg + "r"})
+        for a, b in (("Ar", "Br"), ("Br", "Ar")):
+            ops.append({"op": "vec.op2", "f": "mul", "in": [a, b], "out": "M"})
+            ops.append({"op": "vec.op1", "f": "negate_lazy", "in": ["M"], "out": "NL"})
+            ops.append({"op": "vec.op1", "f": "diff_sum", "in": ["M"], "out": "DS"})
+            ops.append({"op": "vec.op1", "f": "shuffle", "in": ["M"], "out": "SH", "arg": "ABDC", "perm": perm_of("ABDC")})
+            ops.append({"op": "vec.op1", "f": "diff_sum", "in": ["SH"], "out": "DS"})
+            ops.append({"op": "vec.op1", "f": "reduce", "in": ["DS"], "out": "DSr"})
+            ops.append({"op": "vec.op2", "f": "mul", "in": ["DSr", a], "out": "M2"})
+        ops.append({"op": "vec.op1", "f": "square", "in": ["Ar"], "out": "S"})
+        ops.append({"op": "vec.op1", "f": "negate_lazy", "in": ["S"], "out": "NL"})
     return ops
 
 
